@@ -2,6 +2,7 @@ import Mutagen.Proofs.Reconcile
 import Mutagen.Proofs.Reach
 import Mutagen.Proofs.History
 import Mutagen.Proofs.HistoryGeneral
+import Mutagen.Proofs.HistoryGaps
 /-!
 # C01 — two-way-safe synchronization never loses a modification
 
@@ -233,5 +234,84 @@ theorem twoWaySafe_history_general (s₀ : HState) (h₀ : s₀.EndpointsValid) 
     (pget t.beta q ≠ none → pget t.beta q ≠ pget s₁.beta q →
       pget (cycleStep .twoWaySafe t).beta q = pget t.beta q) :=
   history_general s₀ h₀ pre mid hpre q hq h1 h2 hmid
+
+/-! ## Gap cycles: every reason for which a cycle does not synchronize a path
+
+`GapCycle mode s q`: `q` lies at or below a conflict root of the cycle's plan,
+or no planned change (ancestor, alpha or beta) installs an entry at `q`
+(`InstallsNothingAt`). The second alternative covers a path near which nothing
+is planned and a path at or below an untracked / problematic entry of an
+endpoint. -/
+
+/-- (b) A gap cycle keeps or drops the ancestor's record at the path. -/
+theorem gap_cycle_keeps_or_drops_record (mode : Mode) (s : HState) (q : Path) (h : GapCycle mode s q) :
+    pget (cycleStep mode s).anc q = pget s.anc q ∨ pget (cycleStep mode s).anc q = none :=
+  gapCycle_anc_kept mode s q h
+
+/-- Reason "unchanged": if nothing is planned at, above or below `q`, the cycle
+leaves the entry at `q` untouched on both endpoints and in the ancestor ((a) and
+(b)), and it is a gap cycle for `q`. -/
+theorem gap_reason_nothing_planned (mode : Mode) (s : HState) (q : Path) (h : NothingPlannedNear mode s q) :
+    GapCycle mode s q ∧
+    pget (cycleStep mode s).alpha q = pget s.alpha q ∧ pget (cycleStep mode s).beta q = pget s.beta q ∧
+      pget (cycleStep mode s).anc q = pget s.anc q :=
+  ⟨Or.inr h.installsNothing, cycle_untouched_of_nothingNear mode s q h⟩
+
+/-- Reason "conflict": under a conflict root no endpoint change is planned at,
+above or below `q` — both endpoint entries at `q` are untouched ((a)) — and the
+cycle is a gap cycle for `q` ((b): `conflict_cycle_keeps_or_drops_record`). -/
+theorem gap_reason_conflict (mode : Mode) (s : HState) (q : Path)
+    (h : ∃ c ∈ (Reconcile s.anc s.alpha s.beta mode).conflicts, c.root <+: q) :
+    GapCycle mode s q ∧
+    pget (cycleStep mode s).alpha q = pget s.alpha q ∧ pget (cycleStep mode s).beta q = pget s.beta q :=
+  ⟨Or.inl h, cycle_untouched_under_conflict mode s q h⟩
+
+/-- Reason "unsynchronizable": if `q` is at or below an untracked or problematic
+entry of either (valid, phantom-free) endpoint, no planned change — ancestor or
+endpoint, any mode — installs anything at `q`; the cycle is a gap cycle for `q`. -/
+theorem gap_reason_unsynchronizable (mode : Mode) (s : HState) (hs : s.EndpointsValid) (q : Path)
+    (h : UnsyncAlong s.alpha q ∨ UnsyncAlong s.beta q) : GapCycle mode s q :=
+  gapCycle_of_unsync mode s hs q h
+
+/-- **Content created or modified since the last synchronization of its path is
+never deleted or overwritten — arbitrary gaps, weak gap hypothesis**
+(two-way-safe): as `twoWaySafe_history_general`, but every cycle of the gap only
+has to be a gap cycle for `q` (`GapCycles`): `q` under a conflict, or no planned
+change installing an entry at `q` — nothing planned near `q`, or `q` at or below
+an untracked / problematic entry (`gap_reason_*`). -/
+theorem twoWaySafe_history_general_gaps (s₀ : HState) (h₀ : s₀.EndpointsValid) (pre mid : List HStep)
+    (hpre : ValidSteps pre) (q : Path)
+    (hq : ∀ c ∈ (Reconcile (hrun .twoWaySafe s₀ pre).anc (hrun .twoWaySafe s₀ pre).alpha
+        (hrun .twoWaySafe s₀ pre).beta .twoWaySafe).conflicts, ¬ c.root <+: q)
+    (h1 : NoUnsyncAlong (cycleStep .twoWaySafe (hrun .twoWaySafe s₀ pre)).alpha q)
+    (h2 : NoUnsyncAlong (cycleStep .twoWaySafe (hrun .twoWaySafe s₀ pre)).beta q)
+    (hmid : GapCycles .twoWaySafe q (cycleStep .twoWaySafe (hrun .twoWaySafe s₀ pre)) mid) :
+    let s₁ := cycleStep .twoWaySafe (hrun .twoWaySafe s₀ pre)
+    let t := hrun .twoWaySafe s₁ mid
+    (pget s₁.alpha q = pget s₁.anc q ∧ pget s₁.beta q = pget s₁.anc q) ∧
+    (pget t.alpha q ≠ none → pget t.alpha q ≠ pget s₁.alpha q →
+      pget (cycleStep .twoWaySafe t).alpha q = pget t.alpha q) ∧
+    (pget t.beta q ≠ none → pget t.beta q ≠ pget s₁.beta q →
+      pget (cycleStep .twoWaySafe t).beta q = pget t.beta q) :=
+  history_general_gap s₀ h₀ pre mid hpre q hq h1 h2 hmid
+
+/-- `twoWaySafe_history_general` (gap cycles all under a conflict) is the special
+case of `twoWaySafe_history_general_gaps`. -/
+theorem twoWaySafe_history_general_corollary (s₀ : HState) (h₀ : s₀.EndpointsValid) (pre mid : List HStep)
+    (hpre : ValidSteps pre) (q : Path)
+    (hq : ∀ c ∈ (Reconcile (hrun .twoWaySafe s₀ pre).anc (hrun .twoWaySafe s₀ pre).alpha
+        (hrun .twoWaySafe s₀ pre).beta .twoWaySafe).conflicts, ¬ c.root <+: q)
+    (h1 : NoUnsyncAlong (cycleStep .twoWaySafe (hrun .twoWaySafe s₀ pre)).alpha q)
+    (h2 : NoUnsyncAlong (cycleStep .twoWaySafe (hrun .twoWaySafe s₀ pre)).beta q)
+    (hmid : UnderConflictInCycles .twoWaySafe q (cycleStep .twoWaySafe (hrun .twoWaySafe s₀ pre)) mid) :
+    let s₁ := cycleStep .twoWaySafe (hrun .twoWaySafe s₀ pre)
+    let t := hrun .twoWaySafe s₁ mid
+    (pget s₁.alpha q = pget s₁.anc q ∧ pget s₁.beta q = pget s₁.anc q) ∧
+    (pget t.alpha q ≠ none → pget t.alpha q ≠ pget s₁.alpha q →
+      pget (cycleStep .twoWaySafe t).alpha q = pget t.alpha q) ∧
+    (pget t.beta q ≠ none → pget t.beta q ≠ pget s₁.beta q →
+      pget (cycleStep .twoWaySafe t).beta q = pget t.beta q) :=
+  twoWaySafe_history_general_gaps s₀ h₀ pre mid hpre q hq h1 h2
+    (GapCycles.of_underConflict .twoWaySafe q mid _ hmid)
 
 end Mutagen.Properties.C01
